@@ -7,6 +7,11 @@ NOTES = ("All checks: ./check <ID> quick|thorough; exit 0 held / 1 VIOLATION / 2
          "every run. known_findings.json lists open findings and fixed: records; replays/<ID>/ holds committed regression cases.")
 NOT_APPLICABLE = {}
 CHECKS = {
+    "C08": {
+        "technique": "property-based testing with instrumented generated models: constructors of generated dataclass / attrs / plain / NamedTuple / pydantic models log their call; defaults and factories come from a look-alike dictionary; the call log is bound to the signature and the result compared type-exactly with direct construction",
+        "text": "Exploration: one constructor call per load, present values bound by identity to their own parameters, absent fields hold the true default (exact type) or a fresh factory result, hooks ran.",
+        "note": "Trusted: Python's inspect.signature.bind and the model libraries' own constructors as the reference; field types are Any.",
+    },
     "C15": {
         "technique": "metamorphic property-based testing: generated type expressions with sequences of meaning-preserving rewrites (equal normal forms, hashes, loaders, dumpers, predicates) and single meaning-changing edits (unequal normal forms); idempotence; enumerated bare generics vs documented implicit parameters",
         "text": "Exploration over generated spellings of one type: normalize_type must be a canonical form in both request orders (cold / warm LRU).",
